@@ -27,23 +27,38 @@ fn hex(bytes: &[u8]) -> String {
 }
 
 fn dump_id(out: &mut String, chitchat_id: &ChitchatId) {
+    let addr = chitchat_id.gossip_advertise_addr;
+    let (ip_version, ip_as_int): (u8, u128) = match addr.ip() {
+        std::net::IpAddr::V4(ip_v4) => (4, u32::from(ip_v4) as u128),
+        std::net::IpAddr::V6(ip_v6) => (6, u128::from(ip_v6)),
+    };
     let _ = write!(
         out,
-        "{}/{}/{}",
+        "{}/{}/{}.{}.{}",
         hex(chitchat_id.node_id.as_bytes()),
         chitchat_id.generation_id,
-        chitchat_id.gossip_advertise_addr
+        ip_version,
+        ip_as_int,
+        addr.port()
     );
 }
 
+/// Canonical single-token rendering of a `ChitchatId`: `<hex node id>/<generation>/<4|6>.<ip as
+/// integer>.<port>`.
+pub fn verif_dump_id(chitchat_id: &ChitchatId) -> String {
+    let mut out = String::new();
+    dump_id(&mut out, chitchat_id);
+    out
+}
+
 fn dump_digest(out: &mut String, digest: &Digest) {
-    let _ = write!(out, "digest {}", digest.node_digests.len());
+    let _ = write!(out, "D {}", digest.node_digests.len());
     for (chitchat_id, node_digest) in &digest.node_digests {
-        out.push_str(" [");
+        out.push(' ');
         dump_id(out, chitchat_id);
         let _ = write!(
             out,
-            " {} {} {}]",
+            " {} {} {}",
             node_digest.heartbeat.0, node_digest.last_gc_version, node_digest.max_version
         );
     }
@@ -52,16 +67,16 @@ fn dump_digest(out: &mut String, digest: &Digest) {
 fn dump_delta(out: &mut String, delta: &crate::delta::Delta) {
     let _ = write!(
         out,
-        "delta len={} n={}",
+        "X {} {}",
         delta.serialized_len(),
         delta.node_deltas.len()
     );
     for node_delta in &delta.node_deltas {
-        out.push_str(" {");
+        out.push(' ');
         dump_id(out, &node_delta.chitchat_id);
         let _ = write!(
             out,
-            " gc={} from={} max={} kvs={}",
+            " {} {} {} {}",
             node_delta.last_gc_version,
             node_delta.from_version_excluded,
             node_delta.max_version,
@@ -70,23 +85,25 @@ fn dump_delta(out: &mut String, delta: &crate::delta::Delta) {
         for kv in &node_delta.key_values {
             let _ = write!(
                 out,
-                " ({} {} {} {})",
+                " {} {} {} {}",
                 hex(kv.key.as_bytes()),
                 hex(kv.value.as_bytes()),
                 kv.version,
                 kv.status as u8
             );
         }
-        out.push('}');
     }
 }
 
-/// Structural, canonical, single-line text rendering of a message.
+/// Structural, canonical, single-line, space-separated rendering of a message:
+/// `SYN <cluster id hex> D <n> (<id> <heartbeat> <last gc> <max>)*`,
+/// `SYNACK D .. X <serialized len> <n> (<id> <last gc> <from> <max> <#kv> (<key hex> <value hex>
+/// <version> <status>)*)*`, `ACK X ..`, `BADCLUSTER`. The empty string is rendered `-`.
 pub fn verif_dump_message(msg: &ChitchatMessage) -> String {
     let mut out = String::new();
     match msg {
         ChitchatMessage::Syn { cluster_id, digest } => {
-            let _ = write!(out, "SYN cluster={} ", hex(cluster_id.as_bytes()));
+            let _ = write!(out, "SYN {} ", hex(cluster_id.as_bytes()));
             dump_digest(&mut out, digest);
         }
         ChitchatMessage::SynAck { digest, delta } => {
